@@ -96,7 +96,10 @@ class InternalCompiler(Compiler):
 
         # 3. If expr is already been computed, return its index
         elif expr in self.expqmap:
-            return self.expqmap[expr]
+            if dest is None or dest == self.expqmap[expr]:
+                return self.expqmap[expr]
+            qc.cx(self.expqmap[expr], dest)
+            return dest
 
         # 4. Special mappings section
         # Add here special expressions mappings to QC
@@ -150,6 +153,7 @@ class InternalCompiler(Compiler):
         erets = list(map(lambda e: self.compile_expr(qc, e), expr.args))
 
         # 2. Get a destination qubit
+        owned = dest is None
         if dest is None:
             dest = qc.get_free_ancilla()
 
@@ -163,7 +167,8 @@ class InternalCompiler(Compiler):
 
         # 5. Mark ancilla every argument and return
         [qc.mark_ancilla(eret) for eret in erets]
-        self.expqmap[expr] = dest
+        if owned:
+            self.expqmap[expr] = dest
 
         return dest
 
@@ -174,6 +179,7 @@ class InternalCompiler(Compiler):
         erets = list(map(lambda e: self.compile_expr(qc, e), expr.args))
 
         # 2. Get a destination qubit
+        owned = dest is None
         if dest is None:
             dest = qc.get_free_ancilla()
 
@@ -191,7 +197,8 @@ class InternalCompiler(Compiler):
 
         # 5. Mark ancilla every argument and return
         [qc.mark_ancilla(eret) for eret in erets]
-        self.expqmap[expr] = dest
+        if owned:
+            self.expqmap[expr] = dest
 
         return dest
 
@@ -216,12 +223,14 @@ class InternalCompiler(Compiler):
             return eret
         # 3. Otherwise map to a new qubit and perform the X
         else:
+            owned = dest is None
             if dest is None:
                 dest = qc.get_free_ancilla()
             qc.cx(eret, dest)
             qc.x(dest)
             qc.mark_ancilla(eret)
-            self.expqmap[expr] = dest
+            if owned:
+                self.expqmap[expr] = dest
 
             return dest
 
@@ -251,7 +260,8 @@ class InternalCompiler(Compiler):
             else:
                 d = self.compile_expr(qc, e, dest=d)
 
-        self.expqmap[expr] = d
+        if dest is None:
+            self.expqmap[expr] = d
         return d
 
     def compile_symbol(self, qc, expr, dest=None, sym=None) -> int:
